@@ -2,4 +2,4 @@ From Coq Require Import Extraction ExtrOcamlBasic.
 From Mamba Require Import Dawg.Model Dawg.Spec Dawg.CodecModel.
 Extraction Language OCaml.
 Extraction "model.ml" new_dawg lookup number_of_words number_of_nodes words_from sget root
-  encode_u64 decode_u64 gob_encode gob_decode zero_node pat_match.
+  encode_u64 decode_u64 gob_encode gob_decode zero_node pat_match wf_checkb.
